@@ -105,8 +105,8 @@ def run(ctx, rep):
     rep.floor("C14.b", "destination removal sites", len(rm), 2)
 
     for (f, bb, t) in rm:
-        r1 = pathsens.reachable_under(f, force_flag("delete", False))
-        r2 = pathsens.reachable_under(f, force_flag("dry_run", True))
+        r1 = pathsens.reachable_under(f, force_flag("delete", False), eval_expr=flag_eval("delete", False))
+        r2 = pathsens.reachable_under(f, force_flag("dry_run", True), eval_expr=flag_eval("dry_run", True))
         ok = bb not in r1 and bb not in r2
         rep.check("C14.b", f"{t['cname']}/{fn_key(f).rsplit('::', 1)[-1]}", ok, where=where(f, bb),
                   what=f"{t['cname']} is unreachable unless opts.delete && !dry_run" if ok else f"{t['cname']} is reachable with delete = false or in dry-run: extra entries of the destination are removed without being asked")
